@@ -173,6 +173,8 @@ def copies(E, s):
         E.true('dtype', all(str(c.dtype) == 'torch.' + s['dtype'] for c in y.cores))
         E.eq('value', dense(E, y.cores), xd)
     E.true('new_object', y is not x and y.cores is not x.cores)
+    if s.get('watched') is None:          # (numpy() of an object that is tracked by autograd is refused by torch itself)
+        E.eq('numpy_of_copy', tn.tensor(y.numpy()), xd.to(dtype=E.dt(s['to'])) if op == 'to_other' else xd)
     if s.get('then_set_core'):
         # the copy is an object of its own: giving it a core with other mode sizes leaves the original's description alone
         before = _meta(x)
